@@ -112,6 +112,10 @@ class LargestFirstSelector(UTxOSelector):
             )
 
             if change.coin < min_change_amount:
+                if max_input_count and len(selected) >= max_input_count:
+                    raise MaxInputCountExceededException(
+                        f"Max input count: {max_input_count} exceeded!"
+                    )
                 additional, _ = self.select(
                     available,
                     [
@@ -319,6 +323,10 @@ class RandomImproveMultiAsset(UTxOSelector):
             )
 
             if change.coin < min_change_amount:
+                if max_input_count and len(selected) >= max_input_count:
+                    raise MaxInputCountExceededException(
+                        f"Max input count: {max_input_count} exceeded!"
+                    )
                 additional, _ = self.select(
                     remaining,
                     [
